@@ -148,9 +148,10 @@ type Result struct {
 
 type Run struct {
 	Args       []string
-	Stdin      []byte   // nil => /dev/null ("no piped input"); non-nil => a real pipe
-	StdinFile  string   // if set, stdin is this file opened read-only (not a char device => "piped")
-	Env        []string // extra env (KEY=VAL)
+	Stdin      []byte        // nil => /dev/null ("no piped input"); non-nil => a real pipe
+	StdinFile  string        // if set, stdin is this file opened read-only (not a char device => "piped")
+	StdinDelay time.Duration // with Stdin: the pipe delivers its first byte only after this delay (a slow producer)
+	Env        []string      // extra env (KEY=VAL)
 	Dir        string
 	Timeout    time.Duration
 	StdoutFile string   // if set, stdout goes to this path (opened O_WRONLY|O_CREATE|O_TRUNC, or as is for devices)
@@ -276,6 +277,9 @@ func (s *SUT) exec(bin string, r Run) Result {
 		cmd.Stdin = f
 	case r.Stdin != nil:
 		cmd.Stdin = bytes.NewReader(r.Stdin) // exec makes a real pipe for non-*os.File readers
+		if r.StdinDelay > 0 {
+			cmd.Stdin = &lateReader{delay: r.StdinDelay, r: bytes.NewReader(r.Stdin)}
+		}
 	default:
 		dn, _ := os.Open(os.DevNull)
 		defer dn.Close()
@@ -495,4 +499,19 @@ func (s *SUT) CoverFuncs() map[string]float64 {
 		}
 	}
 	return out
+}
+
+// lateReader delivers nothing for a while: the child sees an open pipe whose first byte arrives late.
+type lateReader struct {
+	delay time.Duration
+	r     io.Reader
+	slept bool
+}
+
+func (l *lateReader) Read(p []byte) (int, error) {
+	if !l.slept {
+		l.slept = true
+		time.Sleep(l.delay)
+	}
+	return l.r.Read(p)
 }
